@@ -43,8 +43,9 @@ func forgedExchange(version, suite uint16, ms, cr, sr []byte, sizes []int, rgSee
 			msg := randBytes(rg, n)
 			errc := make(chan error, 1)
 			go func() {
-				_, e := w.Write(msg)
-				errc <- e
+				// (the count Write reports is part of the exchange: a caller that honours
+				// it - io.Copy, bufio - must neither stop early nor send bytes twice)
+				errc <- writeAll(w, msg)
 			}()
 			got := make([]byte, n)
 			var rerr error
